@@ -13,6 +13,7 @@
 extern "C" void __gcov_dump(void);  // coverage build only (check/coverage.py)
 #endif
 #include <cstdlib>
+#include <sys/resource.h>
 #include <sys/wait.h>
 #include <unistd.h>
 
@@ -611,7 +612,15 @@ main()
       if (pid == 0) {
         // wall-clock guard: code of the implementation that never reaches a scheduling point again
         // (e.g. a loop over plain memory that does not terminate) cannot be preempted by the baton scheduler
-        alarm(std::getenv("VERIF_ALARM") ? static_cast<unsigned>(std::atoi(std::getenv("VERIF_ALARM"))) : 20U);
+        // The guard is on CPU time: a non-terminating local loop burns a core, a thread that merely waits for its turn on
+        // a loaded machine does not.  The wall-clock alarm is a back-stop that only makes the scenario be skipped.
+        {
+          struct rlimit rl;
+          rl.rlim_cur = 20;
+          rl.rlim_max = 25;
+          setrlimit(RLIMIT_CPU, &rl);
+        }
+        alarm(std::getenv("VERIF_ALARM") ? static_cast<unsigned>(std::atoi(std::getenv("VERIF_ALARM"))) : 120U);
         run_child(sc);
 #ifdef VERIF_COVERAGE
         __gcov_dump();
@@ -620,9 +629,12 @@ main()
       }
       int st = 0;
       waitpid(pid, &st, 0);
-      if (WIFSIGNALED(st) && WTERMSIG(st) == SIGALRM) {
+      if (WIFSIGNALED(st) && (WTERMSIG(st) == SIGXCPU || WTERMSIG(st) == SIGKILL)) {
         ++hangs;
         std::printf("END hang\n");
+        std::fflush(stdout);
+      } else if (WIFSIGNALED(st) && WTERMSIG(st) == SIGALRM) {
+        std::printf("END skipped\n");  // wall-clock back-stop on a loaded machine: not a verdict
         std::fflush(stdout);
       } else if (!(WIFEXITED(st) && WEXITSTATUS(st) == 0)) {
         std::printf("END crash status=%d\n", st);
